@@ -85,6 +85,22 @@ def r2_count_accepted(ck, F, R="C11-R2"):
         rets = [x for x in (b.expr_at_return().a if b.expr_at_return().k == "phi" else [b.expr_at_return()]) if x.k == "agg" and x.x.get("variant") == "Ok"]
         ok = len(rets) == 1 and rets[0].a[0].strip().k == "call" and rets[0].a[0].strip().x.get("site") == inner[0][0]
         ck.ob(R, "returns-accepted-bytes", ok, "CountWrite::write returns exactly what the inner sink accepted (write_all's retry loop then resumes at the right position)", b)
+    # pass-through: every error returned by write / flush is the inner sink's own error of this very
+    # call (std's write_all retries Interrupted only if the retry reaches the sink again)
+    from .c03 import return_alts
+    for p, inner_name in ((A("count_write"), "std::io::Write::write"), (A("count_flush"), "std::io::Write::flush")):
+        wb = F.body(p)
+        ic = [(s, c, t) for s, c, t in wb.calls() if c and c["path"] == inner_name]
+        alts = return_alts(wb)
+        bad = []
+        for a_ in alts:
+            if a_.k == "agg" and a_.x.get("variant") == "Ok":
+                continue
+            src = [x for x in a_.walk() if x.k == "call" and ic and x.x.get("site") == ic[0][0]]
+            if not src:
+                bad.append(a_.show()[:80])
+        mut = sorted({f for f, lst in __import__("rules.c03", fromlist=["mutated_fields"]).mutated_fields(F, A("count_struct")).items() if any(bb.path == p and st for bb, s_, st in lst)})
+        ck.ob(R, f"pass-through/{p.split('::')[-1]}", len(ic) == 1 and not bad and set(mut) <= {"count"}, f"{p.split('::')[-1]}: every non-Ok result is the inner sink's result of this call, and no state other than the counter is touched" + (f" — other results: {bad}" if bad else "") + (f" — extra state written: {mut}" if not set(mut) <= {"count"} else ""), wb)
     imp = [i for i in F.impls if i.get("self_adt") == A("count_struct") and i.get("trait") == "std::io::Write"]
     ck.ob(R, "no-write_all-override", len(imp) == 1 and sorted(imp[0]["items"]) == ["flush", "write"], f"impl Write for CountWrite defines {imp[0]['items'] if imp else '?'} only (write_all / write_vectored are std's defaults running through the counting write)", config=F.config)
     g = F.body(A("count_count"))
